@@ -10,7 +10,7 @@ use serde_json::{json, Value};
 use std::num::NonZero;
 use vph::refdec;
 
-pub const RULE: &str = "every input length 1..49 (thorough 1..97) (block 16) × 3 signal kinds × channels {1,2} (thorough + 3, 8) × depth {8,16} (thorough + 24, 32) × seek policy {off, frames 1/2/3, seconds 1 at rates 16/24/44100/0} × declared/undeclared × padding {none, 4096, 0, 4+18k+δ for δ∈−8..8 (k = seek points of this configuration)} × writer start offset {0,7} × extra metadata {none, comment + 2 application blocks + picture}; plus long streams (lengths 65535, 65536, 65537, 65551..65553, 69632, 106496, 106596, 131075 PCM frames × block 16/4096 × seconds/frames policies at 4 rates × declared/undeclared × padding default/none) and big frames (one block of 64 KiB and more of interleaved PCM: 8×24-bit×4096, 2×16-bit×16384/16385, mono 16-bit 32768/32769/40000, 2×32-bit×8193, 3×24-bit×7282, 8×32-bit×2049); each finished device image is judged by the independent validator (sample count, parameters, frame-size extrema, block-size rule, MD5, every defined seek point = a real frame, ordering, placeholders last), by the device call log (nothing written before the stream start; once audio exists no write touches bytes that already hold audio) and by generate_seektable(file, same interval) == defined points; plus the byte (LE/BE) and channel writers × length 1..49 × channels {1,2} × depth {8,12,16,24,32} × declared/undeclared × seek table on/off judged by the independent validator; thorough adds >932067-frame streams";
+pub const RULE: &str = "every input length 1..49 (thorough 1..97) (block 16) × 3 signal kinds × channels {1,2} (thorough + 3, 8) × depth {8,16} (thorough + 24, 32) × seek policy {off, frames 1/2/3, seconds 1 at rates 16/24/44100/0} × declared/undeclared × padding {none, 4096, 0, 4+18k+δ for δ∈−8..8 (k = seek points of this configuration)} × writer start offset {0,7} × extra metadata {none, comment + 2 application blocks + picture}; plus long streams (lengths 65535, 65536, 65537, 65551..65553, 69632, 106496, 106596, 131075 PCM frames × block 16/4096 × seconds/frames policies at 4 rates × declared/undeclared × padding default/none) , sinks that accept 1 / 5 / 64 bytes per write call (5 lengths × 3 seek policies × 3 formats), and big frames (one block of 64 KiB and more of interleaved PCM: 8×24-bit×4096, 2×16-bit×16384/16385, mono 16-bit 32768/32769/40000, 2×32-bit×8193, 3×24-bit×7282, 8×32-bit×2049); each finished device image is judged by the independent validator (sample count, parameters, frame-size extrema, block-size rule, MD5, every defined seek point = a real frame, ordering, placeholders last), by the device call log (nothing written before the stream start; once audio exists no write touches bytes that already hold audio) and by generate_seektable(file, same interval) == defined points; plus the byte (LE/BE) and channel writers × length 1..49 × channels {1,2} × depth {8,12,16,24,32} × declared/undeclared × seek table on/off judged by the independent validator; thorough adds >932067-frame streams";
 pub const ASSUMPTIONS: &[&str] = &["PCM values come from 3 fixed signal kinds (values: C01)"];
 pub fn bounds(quick: bool) -> Value {
     json!({"lengths": if quick { "1..49; channels 1,2; depths 8,16" } else { "1..97; channels 1,2,3,8; depths 8,16,24,32" }, "padding_delta": "-8..8", "huge_stream": if quick { "not run" } else { "932100 frames of 16 constant samples, declared and undeclared, seektable_frames(1)" }})
@@ -38,6 +38,8 @@ struct Cfg {
     start: usize,
     extra: bool,
     block: u16,
+    /// 0 = the sink accepts whole buffers; k = at most k bytes per write call
+    sink: usize,
 }
 
 fn interval(seek: Seek) -> Option<SeekTableInterval> {
@@ -72,6 +74,7 @@ fn run_case(c: &Cfg) -> Result<(), (String, String)> {
     let junk: Vec<u8> = (0..c.start).map(|i| 0xA0 + i as u8).collect();
     let r = guarded(|| -> Result<(MemDevice, usize), String> {
         let mut dev = MemDevice::new(junk.clone(), c.start as u64);
+        dev.max_write = c.sink;
         let mut o = opt.to_options()?;
         if c.extra {
             o = o.tag("TITLE", "verif").application(Application { id: 0x76657269, data: vec![1, 2, 3] }).picture(flac_codec::metadata::Picture {
@@ -163,7 +166,7 @@ fn run_case(c: &Cfg) -> Result<(), (String, String)> {
 
 fn cfg_json(c: &Cfg) -> Value {
     json!({"kind":"finalize-truth","len":c.len,"signal":c.kind,"ch":c.sig.ch,"bps":c.sig.bps,"rate":c.sig.rate,
-        "opt": Opt{seek:c.seek,pad:c.pad,declared:c.declared,block:c.block,..Opt::base16()}.to_json(),"start":c.start,"extra":c.extra})
+        "opt": Opt{seek:c.seek,pad:c.pad,declared:c.declared,block:c.block,..Opt::base16()}.to_json(),"start":c.start,"extra":c.extra,"sink":c.sink})
 }
 
 fn huge(declared: bool) -> Result<(), (String, String)> {
@@ -274,7 +277,7 @@ pub fn run(ctx: &Ctx, acc: &mut Acc) {
                                         if !ctx.mine() {
                                             continue;
                                         }
-                                        let c = Cfg { len, kind, sig: Sig { rate, bps, ch }, seek, declared, pad, start, extra, block: 16 };
+                                        let c = Cfg { len, kind, sig: Sig { rate, bps, ch }, seek, declared, pad, start, extra, block: 16, sink: 0 };
                                         acc.states += 1;
                                         acc.executions += 1;
                                         acc.transitions += 3;
@@ -306,7 +309,7 @@ pub fn run(ctx: &Ctx, acc: &mut Acc) {
                         if !ctx.mine() {
                             continue;
                         }
-                        let c = Cfg { len, kind: if block == 16 { 0 } else { 2 }, sig: Sig { rate, bps: 16, ch: 1 }, seek, declared, pad, start: 0, extra: false, block };
+                        let c = Cfg { len, kind: if block == 16 { 0 } else { 2 }, sig: Sig { rate, bps: 16, ch: 1 }, seek, declared, pad, start: 0, extra: false, block, sink: 0 };
                         acc.states += 1;
                         acc.executions += 1;
                         acc.transitions += 3;
@@ -322,6 +325,32 @@ pub fn run(ctx: &Ctx, acc: &mut Acc) {
             }
         }
     }
+    // ---- sinks that accept only a few bytes per write call (legal for io::Write): byte offsets and frame sizes are counted
+    //      from what was offered or from what was taken — only the latter is right
+    for len in [1usize, 16, 17, 40, 49] {
+        for (seek, rate) in [(Seek::Frames(1), 44100u32), (Seek::Seconds(1), 16), (Seek::Off, 44100)] {
+            for declared in [true, false] {
+                for sink in [1usize, 5, 64] {
+                    for (ch, bps) in [(1u8, 16u32), (2, 8), (3, 24)] {
+                        if !ctx.mine() {
+                            continue;
+                        }
+                        let c = Cfg { len, kind: 1, sig: Sig { rate, bps, ch }, seek, declared, pad: Pad::Default, start: 0, extra: false, block: 16, sink };
+                        acc.states += 1;
+                        acc.executions += 1;
+                        acc.transitions += 3;
+                        match run_case(&c) {
+                            Ok(()) => acc.outcome(format!("short-sink:ok:{:?}", seek)),
+                            Err((clause, detail)) => {
+                                acc.outcome(format!("bad:{clause}"));
+                                acc.violation(format!("C09|short-sink|{clause}"), format!("{c:?}: {detail}"), cfg_json(&c));
+                            }
+                        }
+                    }
+                }
+            }
+        }
+    }
     // ---- big frames: one block of interleaved PCM larger than 64 KiB (and exactly 64 KiB, and one sample more), the sizes at
     //      which per-call staging buffers for hashing / byte conversion wrap
     for (ch, bps, block) in [(8u8, 24u32, 4096u16), (2, 16, 16384), (2, 16, 16385), (1, 16, 32768), (1, 16, 32769), (1, 16, 40000), (2, 32, 8193), (3, 24, 7282), (8, 32, 2049)] {
@@ -330,7 +359,7 @@ pub fn run(ctx: &Ctx, acc: &mut Acc) {
                 if !ctx.mine() {
                     continue;
                 }
-                let c = Cfg { len, kind: 1, sig: Sig { rate: 48000, bps, ch }, seek: Seek::Frames(1), declared, pad: Pad::Default, start: 0, extra: false, block };
+                let c = Cfg { len, kind: 1, sig: Sig { rate: 48000, bps, ch }, seek: Seek::Frames(1), declared, pad: Pad::Default, start: 0, extra: false, block, sink: 0 };
                 acc.states += 1;
                 acc.executions += 1;
                 acc.transitions += 3;
@@ -363,7 +392,7 @@ pub fn replay(v: &Value) -> Option<(bool, String)> {
     match v["kind"].as_str()? {
         "finalize-truth" => {
             let o = Opt::from_json(&v["opt"]);
-            let c = Cfg { len: v["len"].as_u64()? as usize, kind: v["signal"].as_u64()? as usize, sig: crate::codec::sig_from(v), seek: o.seek, declared: o.declared, pad: o.pad, start: v["start"].as_u64()? as usize, extra: v["extra"].as_bool()?, block: o.block };
+            let c = Cfg { len: v["len"].as_u64()? as usize, kind: v["signal"].as_u64()? as usize, sig: crate::codec::sig_from(v), seek: o.seek, declared: o.declared, pad: o.pad, start: v["start"].as_u64()? as usize, extra: v["extra"].as_bool()?, block: o.block, sink: v["sink"].as_u64().unwrap_or(0) as usize };
             let r = run_case(&c);
             Some((r.is_err(), format!("{r:?}")))
         }
